@@ -19,8 +19,6 @@ Oracle (DESIGN C13, no stricter than the statement):
     BrokenLinkError; other RF status -> TransmissionError; host faults ->
     IOError (TimeoutError allowed for ETIMEDOUT).
 """
-import errno
-
 from mc.evidence import Run
 from mc.evidence import sig_exc as _sig_exc
 from mc import par, explore
@@ -244,10 +242,9 @@ class UdpPeer(object):
         if sock is None or data.startswith(b'RFOFF'):
             return None
         try:
-            brty, hexdata = data.split()
-            d = bytes.fromhex(hexdata.decode())
-        except ValueError:
-            brty, d = data.strip(), b''
+            d = bytes.fromhex(data.split()[1].decode())
+        except (ValueError, IndexError):
+            d = b''
         self.emit(sock, self.respond(d))
         return None
 
@@ -513,7 +510,56 @@ def signature(cfg, cmd, dev, what):
 # ----------------------------------------------------------------------------
 # exploring one configuration
 # ----------------------------------------------------------------------------
-def explore_config(run, cfg, bound, alphabet, exchanges, max_execs=None):
+def explore_slice(run_one, bound, visit, r, R):
+    """mc.explore.explore restricted to the r-th of R slices of the first
+    level: the executions whose first deviation is the k-th alternative (in
+    enumeration order) with k % R == r, and everything below them; slice 0
+    also visits the deviation-free execution.  The union over r is exactly
+    what explore() visits."""
+    st = explore.Stats()
+    ch = Chooser(())
+    res = run_one(ch)
+    if r == 0:
+        st.executions += 1
+        st.choice_points += len(ch.log)
+        st.by_cost[0] = 1
+        visit(ch, res)
+    roots, k = [], 0
+    for i, (n, costs, c, kind, label) in enumerate(ch.log):
+        for alt in range(1, n):
+            if costs[alt] <= bound:
+                if k % R == r:
+                    roots.append(((0,) * i + (alt,), costs[alt]))
+                k += 1
+    stack = list(reversed(roots))
+    while stack:
+        prefix, used = stack.pop()
+        ch = Chooser(prefix)
+        res = run_one(ch)
+        if ch.i < len(ch.prefix):
+            raise explore.HarnessError('replay divergence: %r' % (prefix,))
+        st.executions += 1
+        st.choice_points += len(ch.log)
+        st.max_depth = max(st.max_depth, len(ch.log))
+        st.by_cost[used] = st.by_cost.get(used, 0) + 1
+        visit(ch, res)
+        log = ch.log
+        taken = [e[2] for e in log]
+        cum = used
+        children = []
+        for i in range(len(prefix), len(log)):
+            n, costs, c, kind, label = log[i]
+            for alt in range(1, n):
+                if cum + costs[alt] <= bound:
+                    children.append((tuple(taken[:i]) + (alt,),
+                                     cum + costs[alt]))
+            cum += costs[c]
+        stack.extend(reversed(children))
+    return st
+
+
+def explore_config(run, cfg, bound, alphabet, exchanges, max_execs=None,
+                   slice_no=0, slices=1):
     base = run_case(cfg, Chooser(()), alphabet, exchanges)
     name = cfg_name(cfg)
     if base['bad']:
@@ -525,6 +571,8 @@ def explore_config(run, cfg, bound, alphabet, exchanges, max_execs=None):
             v = judge(cfg, base, x, base['outcomes'])
             if v is None:
                 raise HarnessBroken('baseline of %s is %r' % (name, o))
+            if slice_no:
+                return explore.Stats(), base
             run.fail(signature(cfg, 'none', None, v[0]), dict(
                 config=cfg, alphabet=alphabet, exchanges=exchanges,
                 choices=[], exchange_index=x, deviations=[],
@@ -572,7 +620,10 @@ def explore_config(run, cfg, bound, alphabet, exchanges, max_execs=None):
                 (o[1].hex() if o[0] == 'data' else o[0]),
                 verdict=msg), key=key, deviations=nd)
 
-    st = explore.explore(run_one, bound, visit, max_execs=max_execs)
+    if slices <= 1:
+        st = explore.explore(run_one, bound, visit, max_execs=max_execs)
+    else:
+        st = explore_slice(run_one, bound, visit, slice_no, slices)
     run.count('executions', st.executions)
     run.count('choice_points', st.choice_points)
     if st.capped:
@@ -584,6 +635,9 @@ def _j(x):
     return list(x) if isinstance(x, tuple) else x
 
 
+SLICES_B = 12
+
+
 def work(args):
     chunk, tier, mode = args
     run = Run(PROP)
@@ -592,7 +646,8 @@ def work(args):
         if mode == 'A':
             st, base = explore_config(run, cfg, 1, cs.FULL, 1)
         else:
-            st, base = explore_config(run, cfg, 2, cs.REDUCED, 2)
+            st, base = explore_config(run, cfg, 2, cs.REDUCED, 2,
+                                      slice_no=mode[1], slices=SLICES_B)
         info.append((cfg_name(cfg), mode, st.executions, st.max_depth,
                      base['cmds']))
     if chunk and chunk[0]['kind'] in ('T2', 'tt2'):
@@ -612,15 +667,16 @@ def main(tier='quick', seed=0, part=None):
         cfgs = [c for c in cfgs if part in cfg_name(c)]
     jobs = [([c], tier, 'A') for c in cfgs]
     if tier == 'thorough':
-        seen = set()
         for c in configs('quick'):
             if part and part not in cfg_name(c):
                 continue
-            jobs.append(([c], tier, 'B'))
+            for r in range(SLICES_B):
+                jobs.append(([c], tier, ('B', r)))
     per_cfg = {}
     for res in par.pmap(work, par.shuffled(jobs, seed)):
         for name, mode, execs, depth, cmds in res.pop('info'):
-            per_cfg[name + ('' if mode == 'A' else ' [2 dev]')] = execs
+            k = name + ('' if mode == 'A' else ' [2 dev]')
+            per_cfg[k] = per_cfg.get(k, 0) + execs
         run.merge(res)
     run.rule = (
         "for every configuration (driver x sense/listen target kind x "
@@ -667,7 +723,6 @@ def replay(doc):
     d = doc['detail']
     cfg = d['config']
     cfg['timeout'] = float(cfg['timeout'])
-    run = Run(PROP)
     base = run_case(cfg, Chooser(()), d['alphabet'], d['exchanges'])
     res = run_case(cfg, Chooser(d['choices']), d['alphabet'], d['exchanges'])
     rc = 0
